@@ -24,6 +24,9 @@ PERFT = [
 def sany():
     bad = []
     for f in sorted(glob.glob(os.path.join(vcommon.SPEC, "*.tla"))):
+        # modules for Apalache (EXTENDS Apalache) are parsed and type-checked by Apalache itself when they are used
+        if re.search(r"^EXTENDS.*\bApalache\b", open(f).read(), re.M):
+            continue
         p = subprocess.run(["java", "-cp", vcommon.TLA_CP, "tla2sany.SANY", os.path.basename(f)], cwd=vcommon.SPEC,
                            stdout=subprocess.PIPE, stderr=subprocess.STDOUT, text=True)
         if p.returncode != 0 or "rror" in p.stdout:
